@@ -163,13 +163,66 @@ class PermSet(object):
     def __sub__(self, other):
         return self.difference(other)
 
+    def union(self, other):
+        return PermSet(list(self._items) + [i for i in other])
+
+    def __or__(self, other):
+        return self.union(other)
+
+    def intersection(self, other):
+        return PermSet([i for i in self._items if i in other])
+
+    def __and__(self, other):
+        return self.intersection(other)
+
+    def symmetric_difference(self, other):
+        return PermSet([i for i in self._items if i not in other] +
+                       [i for i in other if i not in self._items])
+
+    def __xor__(self, other):
+        return self.symmetric_difference(other)
+
     def add(self, x):
         if x not in self._items:
             self._items.append(x)
 
+    def update(self, other):
+        for x in other:
+            self.add(x)
+
+    def discard(self, x):
+        if x in self._items:
+            self._items.remove(x)
+
+    def remove(self, x):
+        self._items.remove(x)
+
+    def copy(self):
+        return PermSet(self._items)
+
+    def __bool__(self):
+        return bool(self._items)
+
+    def __eq__(self, other):
+        try:
+            return len(self) == len(other) and all(i in other for i in self._items)
+        except TypeError:
+            return NotImplemented
+
+    __hash__ = None
+
 
 TOGETHERS = [[], [('a', 'b')], [('a', 'b'), ('b', 'c')], [('b', 'c'), ('a', 'b'), ('a', 'c')],
              [('a', 'c')]]
+
+
+INDEX_LISTS = [
+    [],
+    [{'name': 'i1', 'fields': ['a']}],
+    [{'name': 'i1', 'fields': ['a']}, {'name': 'i2', 'fields': ['b']}],
+    [{'name': 'i3', 'fields': ['c']}, {'name': 'i1', 'fields': ['a']}, {'name': 'i2', 'fields': ['a', 'b']}],
+    [{'name': 'i4', 'fields': ['a', 'c']}, {'name': 'i5', 'fields': ['-b']}],
+]
 
 
 def _mock_model():
@@ -208,15 +261,16 @@ def _meta_sql(func_name, old, new, perm):
 
 def h_set_order(func: int, old_i: int, new_i: int, perm: int) -> bool:
     """
-    pre: 0 <= func <= 1 and 0 <= old_i <= 4 and 0 <= new_i <= 4 and 0 <= perm <= 5
+    pre: 0 <= func <= 2 and 0 <= old_i <= 4 and 0 <= new_i <= 4 and 0 <= perm <= 5
     pre: hx.in_part(func, old_i)
     pre: not hx.excluded(func, old_i, new_i, perm)
     pre: not hx.kf('c14_set_iteration_order')
     post: _
     """
-    name = hx.pick(['change_meta_unique_together', 'change_meta_index_together'], func)
-    old = hx.pick(TOGETHERS, old_i)
-    new = hx.pick(TOGETHERS, new_i)
+    name = hx.pick(['change_meta_unique_together', 'change_meta_index_together',
+                    'change_meta_indexes'], func)
+    old = hx.pick(INDEX_LISTS if func == 2 else TOGETHERS, old_i)
+    new = hx.pick(INDEX_LISTS if func == 2 else TOGETHERS, new_i)
     perm = hx.realize(perm)
     with hx.NoTracing():
         base = _meta_sql(name, old, new, 0)
